@@ -254,13 +254,17 @@ class HistogramDensityMethod(BatchDetector):
             y_pred (numpy.ndarray): predicted labels of next batch - not used in HDM
         """
 
+        X, _, _ = super()._validate_input(X, None, None)
+
         if self._drift_state == "drift":
             self.reset()
 
-        X, _, _ = super()._validate_input(X, None, None)
         X = pd.DataFrame(
             X, columns=self._input_cols
         )  # TODO: subsequent operations expect dataframes, not numpy arrays
+        # column names may have been fixed after the reference was set from a
+        # bare array; keep the labels aligned so that concatenation is by position
+        self.reference.columns = X.columns
 
         super().update(X, None, None)
         test_n = X.shape[0]
@@ -367,7 +371,8 @@ class HistogramDensityMethod(BatchDetector):
         self.total_epsilon = 0
 
         if self.detect_batch == 1:
-            self.update(test_proxy)
+            # pass the bare values: this internal update must not fix column names
+            self.update(test_proxy.values)
 
     def _build_histograms(self, dataset, min_values, max_values):
         """
